@@ -42,7 +42,18 @@ func skQty(name string, exp uint32) num.Amount {
 	return num.MakeAmount(v, exp)
 }
 
+// skFixed: a fixed (supplied) amount; with nonzeroFixed it is assumed different from zero (a zero row is dropped by
+// normalisation, which makes it the document without the row - a shape that is enumerated anyway).
+func skFixed(o skOpts, name string, exp uint32) num.Amount {
+	a := skAmt(name, exp)
+	if o.nonzeroFixed {
+		vrt.Assume(a.Value() != 0)
+	}
+	return a
+}
+
 type skOpts struct {
+	nonzeroFixed bool // fixed amounts are not zero
 	rule       cbc.Key  // rounding rule
 	cur        currency.Code
 	lines      int
@@ -94,7 +105,7 @@ func skLine(name string, o skOpts, curExp uint32, first bool) *Line {
 		p := skP10
 		l.Discounts = []*LineDiscount{{Percent: &p}}
 	case 2:
-		l.Discounts = []*LineDiscount{{Amount: skAmt(name+".disc.amount", fexp())}}
+		l.Discounts = []*LineDiscount{{Amount: skFixed(o, name+".disc.amount", fexp())}}
 	}
 	if o.rich {
 		nc := 3 // quick: none / percent / rate x quantity; thorough adds a fixed amount
@@ -106,10 +117,10 @@ func skLine(name string, o skOpts, curExp uint32, first bool) *Line {
 			p := skP5
 			l.Charges = []*LineCharge{{Percent: &p}}
 		case 2:
-			r := skAmt(name+".charge.rate", curExp)
+			r := skFixed(o, name+".charge.rate", curExp)
 			l.Charges = []*LineCharge{{Rate: &r}}
 		case 3:
-			l.Charges = []*LineCharge{{Amount: skAmt(name+".charge.amount", fexp())}}
+			l.Charges = []*LineCharge{{Amount: skFixed(o, name+".charge.amount", fexp())}}
 		}
 	}
 	return l
@@ -141,7 +152,7 @@ func skInvoice(o skOpts) *Invoice {
 		p := skP5
 		inv.Discounts = []*Discount{{Percent: &p, Taxes: vat()}}
 	case 2:
-		inv.Discounts = []*Discount{{Amount: skAmt("doc.disc.amount", fexp()), Taxes: vat()}}
+		inv.Discounts = []*Discount{{Amount: skFixed(o, "doc.disc.amount", fexp()), Taxes: vat()}}
 	}
 	if o.rich {
 		ndc := 2 // quick: none / percent; thorough adds a fixed amount
@@ -153,7 +164,7 @@ func skInvoice(o skOpts) *Invoice {
 			p := skP5
 			inv.Charges = []*Charge{{Percent: &p, Taxes: vat()}}
 		case 2:
-			inv.Charges = []*Charge{{Amount: skAmt("doc.charge.amount", fexp()), Taxes: vat()}}
+			inv.Charges = []*Charge{{Amount: skFixed(o, "doc.charge.amount", fexp()), Taxes: vat()}}
 		}
 		na := 3 // quick: none / fixed / percent with a percentage due date; thorough adds percent alone
 		if vrt.Thorough() {
@@ -164,7 +175,7 @@ func skInvoice(o skOpts) *Invoice {
 			p := skP50
 			inv.Payment = &PaymentDetails{Advances: []*pay.Advance{{Description: "adv", Percent: &p}}}
 		case 1:
-			inv.Payment = &PaymentDetails{Advances: []*pay.Advance{{Description: "adv", Amount: skAmt("advance.amount", fexp())}}}
+			inv.Payment = &PaymentDetails{Advances: []*pay.Advance{{Description: "adv", Amount: skFixed(o, "advance.amount", fexp())}}}
 		case 2:
 			p, q := skP50, skP50
 			d := cal.MakeDate(2024, 4, 1)
